@@ -79,6 +79,11 @@ def cases(tier, seed):
     for bad in ("w_lt_-180", "e_gt_360", "w_gt_360", "e_lt_-180", "span_gt_360", "s_lt_-90", "n_gt_90",
                 "lon_gt_360", "lon_lt_-180", "lat_gt_90", "lat_lt_-90"):
         yield dict(kind="invalid", bad=bad)
+    # out-of-range coordinates are rejected whatever the region looks like: ordinary, crossing 0, crossing 180, full globe in
+    # several spellings, zero width (seed C17-r2_2: a full-globe fast path that skipped the coordinate checks)
+    for bad in ("lon_gt_360", "lon_lt_-180", "lat_gt_90", "lat_lt_-90"):
+        for reg in ([350.0, 10.0], [170.0, -170.0], [0.0, 360.0], [-180.0, 180.0], [-72.5, 287.5], [40.0, 40.0], [-20.0, 20.0], [180.0, 360.0]):
+            yield dict(kind="invalid", bad=bad, reg=reg)
 
 
 def _lons(lat_name, tier_vals):
@@ -96,6 +101,8 @@ def run(case, rec):
              ("span_gt_360", [-180.0, 185.0, -10.0, 10.0]), ("s_lt_-90", [0.0, 10.0, -95.0, 10.0]),
              ("n_gt_90", [0.0, 10.0, -10.0, 95.0])]
         ).get(bad, [0.0, 20.0, -10.0, 10.0])
+        if case.get("reg") is not None:
+            reg = [case["reg"][0], case["reg"][1], -10.0, 10.0]
         lon = np.array([0.0, 5.0, 10.0])
         la = np.array([0.0, 1.0, 2.0])
         if bad == "lon_gt_360":
